@@ -100,7 +100,7 @@ PROPS = {
     },
     "C15": {
         "suites": [("gw", "malformed"), ("gw", "mixed"), ("gw", "mutate"), ("gw", "burst")],
-        "theorems_carry": "malformed / wrong-kind / out-of-range state events are discarded as a whole (resource unchanged, nothing delivered); the matcher never indexes out of range; the throttle panics only on Done at zero",
+        "theorems_carry": "malformed / wrong-kind / out-of-range state events are discarded as a whole (resource unchanged, nothing delivered); the matcher never indexes out of range; the throttle panics only on Done at zero; the repaired collector (tryDelete keyed by subscription object) never meets an unregistered subscription in its second traversal, for every graph of subscription objects incl. leftovers and every map order (collector_never_meets_unregistered, over the pure pass1F/pass2F the model runs)",
         "correspondence_only": "process-level crash freedom: the gateway runs without recover inside the harness; a crash is a violation with the logged history as replay; corpus of two fixed crashes is replayed",
         "assumptions": ["panics inside encoding/json, gorilla, net/http are out of scope"],
     },
